@@ -13,22 +13,22 @@ import (
 
 func init() {
 	register(&Property{
-		ID:      "C02",
-		Engines: []string{"cfg"},
+		ID:          "C02",
+		Engines:     []string{"cfg"},
 		Explanation: "Inbound delivery, structural part: at each of the three read loops the data callback is guarded by n>0, receives the connection returned by that very read and the buffer re-sliced to [:n] of that read's count (O1); the loops agree on EINTR -> retry, EAGAIN -> leave, other error -> close and leave, short count -> leave, and on the per-event iteration bound (O2); the one-shot read task re-arms on every exit that did not close (O3); the synchronous loop pays every borrowed buffer back before the next borrow or exit (O4); the async gate: counter atomic-only, a task is submitted only when the increment returned 1, the over-count edge undoes its increment, the task returns only when the decrement returned 0 (O5); every buffer that reaches a kernel read is made with a provably positive length (O6); connsUnix has only its three writers and deleteConn's removal is identity-guarded (O7); the UDP session map is looked up and inserted with the same key, sessions are created and announced on the miss edge only (O8). Engine.Start publishes every engine field the poller loops read before it starts the first poller goroutine (O9); the one-shot re-arm registers with the kernel regardless of the isWAdded flag (O10); the count and error of the kernel read travel unchanged through readStream/readUDP, doRead, Read and ReadAndGetConn (O11). Every read of a read loop gets the whole buffer (O12); the short-count exit is taken for stream sockets only (O13); a hang-up event closes only after the synchronous loop, its bound lifted, has read what the peer sent (O14; the asynchronous case is an open known finding).",
-		NotCovered: "the lost-edge race of the gate under all schedules, kernel ET/ONESHOT semantics, CPU usage at quiescence, datagram boundaries (kernel), the configuration matrix as executions",
-		Run:        runC02,
+		NotCovered:  "the lost-edge race of the gate under all schedules, kernel ET/ONESHOT semantics, CPU usage at quiescence, datagram boundaries (kernel), the configuration matrix as executions",
+		Run:         runC02,
 	})
 }
 
 type readLoop struct {
-	fn    *ssa.Function
-	name  string
-	read  *ssa.Call // ReadAndGetConn
-	rc    ssa.Value
-	n     ssa.Value
-	err   ssa.Value
-	pbuf  ssa.Value
+	fn   *ssa.Function
+	name string
+	read *ssa.Call // ReadAndGetConn
+	rc   ssa.Value
+	n    ssa.Value
+	err  ssa.Value
+	pbuf ssa.Value
 }
 
 func (c *Ctx) readLoops() []readLoop {
@@ -1139,8 +1139,10 @@ func c02TypEdge(c *Ctx, fi *ir.FnInfo, i *ssa.If, k int) int {
 	return 0
 }
 
-func c02NonStreamEdge(c *Ctx, fi *ir.FnInfo, i *ssa.If, k int) bool { return c02TypEdge(c, fi, i, k) < 0 }
-func c02StreamEdge(c *Ctx, fi *ir.FnInfo, i *ssa.If, k int) bool    { return c02TypEdge(c, fi, i, k) > 0 }
+func c02NonStreamEdge(c *Ctx, fi *ir.FnInfo, i *ssa.If, k int) bool {
+	return c02TypEdge(c, fi, i, k) < 0
+}
+func c02StreamEdge(c *Ctx, fi *ir.FnInfo, i *ssa.If, k int) bool { return c02TypEdge(c, fi, i, k) > 0 }
 
 // c02PhiTypes computes the connection types for which a boolean phi built from
 // tests of Conn.typ has the given truth value (domain: the declared ConnType values).
